@@ -173,6 +173,7 @@ func (s *syncer) SyncAny(discoveryTime time.Duration, retryHook func()) (sm.Stat
 	// the snapshot and chunk queue from the previous loop iteration.
 	var (
 		snapshot *snapshot
+		senders  []p2p.Peer
 		chunks   *chunkQueue
 		err      error
 	)
@@ -181,6 +182,12 @@ func (s *syncer) SyncAny(discoveryTime time.Duration, retryHook func()) (sm.Stat
 		if snapshot == nil {
 			snapshot = s.snapshots.Best()
 			chunks = nil
+			// Remember who advertised the snapshot: they may be gone from the pool by the time
+			// the app rejects them.
+			senders = nil
+			if snapshot != nil {
+				senders = s.snapshots.GetPeers(snapshot)
+			}
 		}
 		if snapshot == nil {
 			if discoveryTime == 0 {
@@ -230,7 +237,7 @@ func (s *syncer) SyncAny(discoveryTime time.Duration, retryHook func()) (sm.Stat
 		case errors.Is(err, errRejectSender):
 			s.logger.Info("Snapshot senders rejected", "height", snapshot.Height, "format", snapshot.Format,
 				"hash", snapshot.Hash)
-			for _, peer := range s.snapshots.GetPeers(snapshot) {
+			for _, peer := range append(senders, s.snapshots.GetPeers(snapshot)...) {
 				s.snapshots.RejectPeer(peer.ID())
 				s.logger.Info("Snapshot sender rejected", "peer", peer.ID())
 			}
